@@ -3,6 +3,7 @@
 //	c17 replay <cases.ndjson> <events.ndjson>  TLC-emitted tagged command lines through in-process Main (+ one solo run per input)
 //	c17 parse <vectors.ndjson> <out.ndjson>    the real _args_parse on raw argument vectors
 //	c17 rand <n> <events.ndjson>               seeded random tagged command lines (rand.go), same replay
+//	c17 fixtures <dir>                         write the fixture files to a real directory
 //	c17 run <cases.ndjson> <events.ndjson>     ad-hoc {id, argv, files, dirs, stdin} (probing / replay files)
 //
 // The harness contains no oracle: it records exit code, stdout and stderr of real runs.
@@ -12,9 +13,11 @@ import (
 	"bytes"
 	"context"
 	"encoding/json"
+	"fmt"
 	"io"
 	"io/fs"
 	"os"
+	"path/filepath"
 	"runtime"
 	"strings"
 	"sync"
@@ -299,9 +302,10 @@ const parseProg = `$vs[] | . as $v | try (_args_parse($v; _opt_cli_opts) | {argv
 
 func parseBatch(vs [][]string) []parseOut {
 	b, _ := json.Marshal(vs)
-	r := runMain(fixtureFS(), []string{"-nc", "--argjson", "vs", string(b), parseProg}, stdinOf("A"))
-	if r.Exit != 0 {
-		kit.Fatalf("parse batch failed exit=%d stderr=%s", r.Exit, r.Stderr)
+	r := runMain(fixtureFS(), []string{"--null-input", "--compact-output", "--argjson", "vs", string(b), parseProg}, stdinOf("A"))
+	if r.Exit != 0 { // the argument parser under test is too broken to carry its own test vectors: not a machinery error
+		fmt.Fprintf(os.Stderr, "parse batch failed exit=%d stderr=%.300s\n", r.Exit, r.Stderr)
+		os.Exit(4)
 	}
 	var res []parseOut
 	for _, line := range strings.Split(strings.TrimSpace(r.Stdout), "\n") {
@@ -408,6 +412,24 @@ func main() {
 			vs = append(vs, v.Argv)
 		})
 		parseAll(vs, os.Args[3])
+	case "fixtures":
+		// write the fixture universe to a real directory (for the runs of the real fq binary)
+		dir := os.Args[2]
+		for name, content := range fixtureFiles {
+			if err := os.WriteFile(filepath.Join(dir, name), []byte(content), 0o644); err != nil {
+				kit.Fatalf("fixtures: %v", err)
+			}
+		}
+		for _, d := range fixtureDirs {
+			if err := os.MkdirAll(filepath.Join(dir, d), 0o755); err != nil {
+				kit.Fatalf("fixtures: %v", err)
+			}
+		}
+		for k := range kindFile {
+			if err := os.WriteFile(filepath.Join(dir, "stdin_"+k), []byte(*stdinOf(k)), 0o644); err != nil {
+				kit.Fatalf("fixtures: %v", err)
+			}
+		}
 	case "rand":
 		n := kit.Atoi(os.Args[2])
 		replayAll(randCases(n, kit.Seed()), os.Args[3])
